@@ -6,7 +6,7 @@ from harness.core import Discrepancy
 
 PROP = 'C09'
 LEVEL = 'exploration'
-RULE = ("cases = generated signature (0-3 required, 0-3 defaulted, *args, 0-2+0-2 keyword-only, **kw) x kind {function, method via instance, "
+RULE = ("cases = generated signature (0-3 required, 0-3 defaulted, *args, 0-2+0-2 keyword-only, **kw) x kind {function, method via instance, functools.partial over a bound method of a real class, "
         "functools.partial fixing leading positionals} x one binding x TWO spellings of it (positional prefix length, keyword order, defaults "
         "spelled or omitted) x keymap {raw,hash(None/md5/sha1),string(None/repr),pickle(None/pickle/dill)} x flat x typed x sentinel x path "
         "{f.key, klepto.keygen, klepto._keygen+keymap, real calls} x optionally an ignore specification (names, '*', '**') in effect. Oracle: inspect.signature().bind(...)+apply_defaults equal => keys equal, and for "
@@ -42,13 +42,14 @@ PATHS = ['fkey', 'keygen', '_keygen', 'call']
 @st.composite
 def cases(draw, path):
     sig = draw(S.signatures())
-    kind = draw(st.sampled_from(['function', 'function', 'method', 'partial']))
+    # 'partial_bound': functools.partial over a BOUND method of a real class, fixing leading positionals (the instance is bound, the presets follow it)
+    kind = draw(st.sampled_from(['function', 'function', 'method', 'partial', 'partial_bound']))
     vals = V.hashables(max_depth=1, special_floats=False)
     nfix = 0
-    if kind == 'partial':
+    if kind in ('partial', 'partial_bound'):
         nfix = draw(st.integers(0, len(sig['req'])))
     pkw = []
-    if kind == 'partial':
+    if kind in ('partial', 'partial_bound'):
         # the partial may also override keyword-only defaults and pre-set extra keywords
         for n, d in sig['kwopt']:
             if draw(st.booleans()):
@@ -128,6 +129,11 @@ def build_target(case, log):
     if case['kind'] == 'method':
         fn = S.make_plain(S.with_self(sig), body)
         return fn, (S.Holder(),), fn
+    if case['kind'] == 'partial_bound':
+        fn = S.make_plain(S.with_self(sig), body)
+        S.Inst.f = fn             # removed again by run_case
+        p = functools.partial(S.Inst(0, 3).f, *[V.build(s) for s in case['fixed']], **dict((n, V.build(v)) for n, v in case.get('pkw', [])))
+        return p, (), p
     fn = S.make_plain(sig, body)
     if case['kind'] == 'partial':
         p = functools.partial(fn, *[V.build(s) for s in case['fixed']], **dict((n, V.build(v)) for n, v in case.get('pkw', [])))
@@ -136,6 +142,14 @@ def build_target(case, log):
 
 
 def run_case(case):
+    try:
+        return _run_case(case)
+    finally:
+        if 'f' in S.Inst.__dict__:
+            delattr(S.Inst, 'f')
+
+
+def _run_case(case):
     import klepto
     out = []
     log = []
@@ -263,7 +277,7 @@ def shape(sig):
     return (len(sig['req']), len(sig['opt']), bool(sig['varargs']), len(sig['kwreq']), len(sig['kwopt']), bool(sig['varkw']))
 
 
-REQUIRED_CLASSES = ['ignore_in_effect', 'tol:0', 'tol:1', 'differs_beyond_kw_order', 'kw_order_differs', 'kind:method', 'kind:partial', 'path:call', 'path:keygen', 'path:_keygen', 'path:fkey']
+REQUIRED_CLASSES = ['kind:partial_bound', 'ignore_in_effect', 'tol:0', 'tol:1', 'differs_beyond_kw_order', 'kw_order_differs', 'kind:method', 'kind:partial', 'path:call', 'path:keygen', 'path:_keygen', 'path:fkey']
 
 EXCLUDED = {'float defaults that change under the rounding tolerance (finding D19, probed)': 'replaced by their rounded value'}
 
